@@ -439,6 +439,11 @@ func upstreamProcsForProc(proc WorkflowProcess) map[string]WorkflowProcess {
 	}
 	for _, pip := range proc.InParamPorts() {
 		for _, rpp := range pip.RemotePorts {
+			if rpp.Process() == proc {
+				// Parameters fed with FromStr(), FromInt() etc come from a port
+				// that belongs to the receiving process itself: nothing upstream
+				continue
+			}
 			procs[rpp.Process().Name()] = rpp.Process()
 			mergeWFMaps(procs, upstreamProcsForProc(rpp.Process()))
 		}
